@@ -49,8 +49,8 @@ def member_candidates(name, qs):
             out.add((fn,))
             continue
         types = re.findall(r'const\s+(?:PhQ::)?(\w+)<NumericType>&', args)
-        if len(types) == 1 and args.count(',') == 0 and types[0] in qs + ['Vector', 'PlanarVector', 'SymmetricDyad', 'Dyad']:
-            out.add((fn, types[0]))
+        if 1 <= len(types) <= 3 and args.count(',') == len(types) - 1 and all(t in qs + ['Vector', 'PlanarVector', 'SymmetricDyad', 'Dyad'] for t in types):
+            out.add((fn,) + tuple(types))
     return sorted(out)
 
 
@@ -84,9 +84,15 @@ def discover(ctx):
             for m in member_candidates(c, qs):
                 if len(m) == 1:
                     body.append('  rd::member0<%s>("%s", "%s", [](const auto& c) -> decltype(c.%s()) { return c.%s(); });' % (C, c, m[0], m[0], m[0]))
-                else:
+                elif len(m) == 2:
                     body.append('  rd::member1<%s, PhQ::%s<double>>("%s", "%s", "%s", [](const auto& c, const auto& a) -> decltype(c.%s(a)) { return c.%s(a); });' % (
                         C, m[1], c, m[0], m[1], m[0], m[0]))
+                else:
+                    targs = ', '.join('PhQ::%s<double>' % x for x in m[1:])
+                    prm = ', '.join('const auto& a%d' % i for i in range(len(m) - 1))
+                    call = ', '.join('a%d' % i for i in range(len(m) - 1))
+                    body.append('  rd::memberN<%s, %s>("%s", "%s", "%s", [](const auto& c, %s) -> decltype(c.%s(%s)) { return c.%s(%s); });' % (
+                        C, targs, c, m[0], ' '.join(m[1:]), prm, m[0], call, m[0], call))
         src = inc + '#include "rel_discover.hpp"\nint main() {\n' + '\n'.join(body) + '\n}\n'
         jobs.append({'name': 'reldisc_%02d' % ci, 'src': src, 'opt': '-O0'})
     bins = ctx.build_all(jobs)
@@ -164,10 +170,16 @@ def gen_items(R):
         C = cxx(m['c'])
         if not m['args']:
             items.append((3, 'rel::homogeneity<%s>("%s.%s()", \'m\', [](const %s& c) { return c.%s(); });' % (C, m['c'], m['name'], C, m['name'])))
-        else:
+        elif len(m['args']) == 1:
             Aa = cxx(m['args'][0])
             items.append((3, 'rel::homogeneity<%s, %s>("%s.%s(%s)", \'m\', [](const %s& c, const %s& a) { return c.%s(a); });' % (
                 C, Aa, m['c'], m['name'], m['args'][0], C, Aa, m['name'])))
+        else:
+            types = ', '.join([C] + [cxx(x) for x in m['args']])
+            params = ', '.join('const %s& x%d' % (cxx(x), i) for i, x in enumerate(m['args']))
+            call = ', '.join('x%d' % i for i in range(len(m['args'])))
+            items.append((3, 'rel::homogeneity<%s>("%s.%s(%s)", \'m\', [](const %s& c, %s) { return c.%s(%s); });' % (
+                types, m['c'], m['name'], ', '.join(m['args']), C, params, m['name'], call)))
     # inverse pairs (mode 5)
     rel2 = []   # (result, x, y, expression template with a,b placeholders, label)
     for c in R['ctors']:
